@@ -135,7 +135,7 @@ def build(tier, only=None):
                 cl = not (mulpath and t is numpy.float64)
                 if mulpath and t is numpy.float64 and tier == "quick":
                     continue
-                rep.add(core.smt(base + "/is-nextafter", PROP, vc(p, r == wantf, extra_hyp=pre), functions=fn, text="result = the float whose pattern is bits(x) +- 1, for normal x with a normal neighbour", budget_s=(1500 if cl else 2400) if mulpath else 300, claimed=cl, backend="z3+cvc5:15" if mulpath else "z3", meta=dict(fn=fname, t=tn)))
+                rep.add(core.smt(base + "/is-nextafter", PROP, vc(p, r == wantf, extra_hyp=pre), functions=fn, text="result = the float whose pattern is bits(x) +- 1, for normal x with a normal neighbour", budget_s=(1500 if cl else 600) if mulpath else 300, claimed=cl, backend="z3+cvc5:15" if mulpath else "z3", meta=dict(fn=fname, t=tn)))
         # ---- is_power_of_two
         lo, hi = POW2_DOMAIN[t]
         try:
